@@ -20,9 +20,6 @@ func init() {
 				} else {
 					cs = append(cs, mkCase("", "c02", "HOpsFixed", cfg, kind, 2, 1, 2, 0, 4), mkCase("", "c02", "HOpsFixed", cfg, kind, 2, 1, 2, 1, 4))
 				}
-				if tier == "thorough" {
-					cs = append(cs, mkCase("", "c02", "HOps", cfg, kind, 3, 2, 1))
-				}
 				for e := int64(0); e <= 3; e++ {
 					calls := int64(3)
 					if tier == "thorough" {
@@ -39,7 +36,7 @@ func init() {
 		Explanation: "Differential bounded symbolic execution of MemFile/OrefaFile against posixref's os.File model (/verif/harness/posix): a file of len0 symbolic bytes, h handles opened with symbolic flags (access mode, O_APPEND, O_TRUNC, O_CREATE, O_EXCL), then a history of L operations chosen among Read(n), ReadAt(n,off), Write(m bytes), WriteAt(m bytes,off), Seek(off,whence), Truncate(size), Stat, Sync, Chmod, Chown, Close and path-level Truncate/Rename/Link/Remove, with full-range symbolic offsets/whence (growth bounded to 8 bytes); after every step the result (errno, count/offset, bytes) and the size and offset seen through every handle and the content seen through every path must equal the model for every value. Natively each path is replayed on *os.File on tmpfs and the model must agree with the kernel (ORACLE mismatch = exit 3). Directory handles: Readdirnames(n), ReadDir(n) and mixed sequences with symbolic n on directories of 0..3 entries: every entry exactly once, batches <= n, then io.EOF.",
 		Bounds: func(tier string) map[string]any {
 			if tier == "thorough" {
-				return map[string]any{"file_len0": "0,2,3 symbolic bytes", "handles": "1..2", "history_length": "1 with symbolic flags; 2 with 5 fixed flag sets and the 8 core operations (4 core operations for two handles)", "buffer_lengths": "0..3 (read), 0..2 (write)", "max_file_size_reached": 8, "dir_entries": "0..3", "dir_read_calls": 4, "outside": "longer histories, 3 handles, files larger than 8 bytes (CUT), access mode 3, directory seeks"}
+				return map[string]any{"file_len0": "0,2,3 symbolic bytes", "handles": "1..2", "history_length": "1 with symbolic flags (one handle); 2 with 5 fixed flag sets and the 8 core operations (4 core operations for two handles); two handles with symbolic flags did not finish within 15 min and are outside", "buffer_lengths": "0..3 (read), 0..2 (write)", "max_file_size_reached": 8, "dir_entries": "0..3", "dir_read_calls": 4, "outside": "longer histories, 3 handles, files larger than 8 bytes (CUT), access mode 3, directory seeks"}
 			}
 			return map[string]any{"file_len0": "0,3 symbolic bytes", "handles": 1, "history_length": "1 with symbolic flags and all 15 operations; 2 with 2 fixed flag sets (O_RDWR, O_RDWR|O_APPEND) and 4 core operations (Seek, Write, Truncate, path Truncate)", "buffer_lengths": "0..3 (read), 0..2 (write)", "max_file_size_reached": 8, "dir_entries": "0..3", "dir_read_calls": 3, "outside": "longer histories, several handles (thorough), files larger than 8 bytes (CUT), access mode 3, directory seeks"}
 		},
